@@ -131,6 +131,95 @@ def run(res, tier, build_ok):
                           {"class": c["cls"], "args": shown, "observed": obs, "expected": want})
         elif ri != "ok %s %d" % want:
             res.tie_break("Xfer.iscsiXfer disagrees with ISCSIDevice.execute", {"model": ri, "implementation": obs})
+    # ---- "for every command": also for one that is inspected / executed only after other commands have been built.
+    #      Pairs of the same class with different transfer sizes, built back to back, buffers looked at afterwards.
+    for c in data["commands"]:
+        if c["cls"].startswith("ATAPassThrough"):
+            continue
+        names = [p[0] for p in c["params"]]
+        szs = [n for n in ("tl", "alloclen", "alloc_len") if n in names and n in c01.size_params(c)]
+        s0 = std.get(c["module"].split(".")[-1], c["cls"])
+        if not szs or s0 is None:
+            continue
+        cls = cmds.get_class(c["module"], c["cls"])
+        op = None
+        for sn, e in sets.items():
+            op = cmds.find_op(e, s0["opname"])
+            if op is not None:
+                break
+        if op is None:
+            continue
+        base = c01.finalize_kwargs(c, c01.make_cases(c, s0, rng, 1)[0], rng)
+        n = szs[0]
+        built = []
+        try:
+            for v in (3, 40, 1, 17):
+                kw = dict(base)
+                kw[n] = v
+                if "blocksize" in kw and kw["blocksize"] is not None:
+                    kw["blocksize"] = 512
+                if "data" in kw and kw.get("data") is not None and c["cls"].startswith("Write1"):
+                    kw["data"] = bytearray(512 * v)
+                built.append((kw, cls(op, **kw)))
+        except Exception as e:
+            res.tie_break("deferred-inspection pair of %s could not be built: %s" % (c["cls"], type(e).__name__), {"class": c["cls"]})
+            continue
+        observed = [(len(cmd.dataout), len(cmd.datain)) for _, cmd in built]     # before anything else is built
+        for (kw, cmd), a in zip(built, observed):
+            fresh = cls(op, **kw)
+            b = (len(fresh.dataout), len(fresh.datain))
+            mult = 512 if "blocksize" in kw and kw["blocksize"] else 1
+            res.case(("deferred", c["cls"], kw[n]), None)
+            res.count("buffers inspected after building other commands")
+            want_n = kw[n] * mult * (3072 // 512 if c["cls"] == "ReadCd" else 1) if c["cls"] != "ReadCd" else kw[n] * 3072
+            if a != b or (a[0] != want_n and a[1] != want_n):
+                res.violation("cls=%s buffers deferred" % c["cls"],
+                              "%s(%s=%d): buffers of %s bytes when inspected after other commands were built; the CDB announces %d (a command built alone has %s)" % (
+                                  c["cls"], n, kw[n], a, want_n, b),
+                              {"class": c["cls"], "size_parameter": n, "value": kw[n], "observed": a, "built_alone": b})
+                break
+    # ---- the transports announce / hand over exactly the buffers, at every size boundary a length field or a
+    #      transport limit could have (8/16/24/25-bit edges, > 16 MiB in one command), reads and writes
+    from pyscsi.pyscsi.scsi_cdb_read16 import Read16
+    from pyscsi.pyscsi.scsi_cdb_write16 import Write16
+    from pyscsi.pyscsi.scsi_device import SCSIDevice
+    from lib import virtos
+    vos = virtos.VirtualOS()
+    vos.install()
+    vos.mknod("/dev/sgx03")
+    sgio = sys.modules["sgio"]
+    sdev = SCSIDevice("/dev/sgx03", detect_replugged=False)
+    seen = []
+    sgio.BACKEND = lambda f, cdb, do, di: (seen.append((len(do), len(di))) or (0, None))
+    sizes = [1, 3, 255, 256, 257, 65535, 65536, 65537, (1 << 24) - 1, 1 << 24, (1 << 24) + 1, (1 << 24) + 4096, (1 << 25) + 512]
+    sizes += [rng.randrange(1 << 16, 1 << 25) for _ in range(4 * scale)]
+    breqs = []
+    for n in sizes:
+        for direction in ("read", "write"):
+            bs = rng.choice([b for b in (1, 512, 4096) if n % b == 0])
+            if direction == "read":
+                cmd = Read16(sets["sbc"].READ_16, blocksize=bs, lba=rng.getrandbits(40), tl=n // bs)
+            else:
+                cmd = Write16(sets["sbc"].WRITE_16, blocksize=bs, lba=rng.getrandbits(40), tl=n // bs, data=bytearray(n))
+            want = ("write", n) if direction == "write" else ("read", n)
+            obs = iscsi_observe(cmd)
+            del seen[:]
+            sdev.execute(cmd)
+            res.case(("transport size", n, direction), {"transfer bytes": n, "direction": direction, "iscsi announces": obs, "sgio gets": seen[:1]})
+            res.count("transport boundary sizes")
+            if obs != want:
+                res.violation("iscsi xfer size", "ISCSIDevice announces %s to the binding for a %s of %d bytes (blocksize %d x %d blocks)" % (obs, direction, n, bs, n // bs),
+                              {"direction": direction, "bytes": n, "blocksize": bs, "tl": n // bs, "observed": obs, "expected": want})
+            wants = (n, 0) if direction == "write" else (0, n)
+            if seen[:1] != [wants]:
+                res.violation("sgio buffers size", "SCSIDevice hands buffers of %s bytes to the binding for a %s of %d bytes" % (seen[:1], direction, n),
+                              {"direction": direction, "bytes": n, "observed": seen[:1], "expected": wants})
+            breqs.append(("iscsixfer %d %d" % (wants[0], wants[1]), "ok %s %d" % want, obs))
+            del cmd
+    for (line, wantrep, obs), rep in zip(breqs, drv.batch([b[0] for b in breqs])):
+        if rep != wantrep:
+            res.tie_break("Xfer.iscsiXfer disagrees with the transfer rule at a boundary size", {"request": line, "model": rep, "expected": wantrep})
+    sgio.BACKEND = None
     # ---- ATA PASS-THROUGH: every flag combination x a few lengths, both classes
     for c in data["commands"]:
         if not c["cls"].startswith("ATAPassThrough"):
